@@ -20,6 +20,8 @@ from ural.quote import (
 from ural.ensure_protocol import ensure_protocol
 from ural.patterns import CONTROL_CHARS_RE
 
+DEFAULT_PORTS = {"http": 80, "https": 443}
+
 
 def canonicalize_url(
     url, default_protocol="https", unsplit=True, quoted=False, strip_fragment=False
@@ -47,8 +49,8 @@ def canonicalize_url(
         hostname = decode_punycode_hostname(hostname)
         hostname = hostname.lower()
 
-    # Dropping HTTP/HTTPS ports
-    if port == 80 or port == 443:
+    # Dropping the scheme's default port
+    if port is not None and DEFAULT_PORTS.get(scheme) == port:
         port = None
 
     if strip_fragment:
